@@ -374,6 +374,50 @@ func genSrcFile(t *rapid.T, name string, minAnnotated int) *SrcFile {
 		}
 		s.Decls = append(s.Decls, d)
 	}
+	// repeated texts: the same @tag comment (and / or the same existing tag literal) on several
+	// fields of one file, as generated code has them by the dozen
+	var ann []*SrcField
+	for di := range s.Decls {
+		for fi := range s.Decls[di].Fields {
+			f := &s.Decls[di].Fields[fi]
+			if f.HasTag && f.HasCmt && f.AtTag && len(f.Inject) > 0 {
+				ann = append(ann, f)
+			}
+		}
+	}
+	if len(ann) >= 2 && rapid.IntRange(0, 2).Draw(t, "repeatTexts") == 0 {
+		donor := ann[rapid.IntRange(0, len(ann)-1).Draw(t, "donor")]
+		if len(donor.Inject) < 2 {
+			// a multi-key comment whose first key overrides an existing key of the donor
+			donor.Inject = []TagItem{{donor.Tag[0].K, genTagVal(t, "riv")}, {rapid.SampledFrom(tagKeys).Draw(t, "rk"), genTagVal(t, "riv2")}}
+			if donor.Inject[1].K == donor.Inject[0].K {
+				donor.Inject = donor.Inject[:1]
+			}
+		}
+		for _, f := range ann {
+			if f == donor || rapid.Bool().Draw(t, "keepOwn") {
+				continue
+			}
+			f.Inject = append([]TagItem(nil), donor.Inject...)
+			f.InjTail = donor.InjTail
+			if rapid.Bool().Draw(t, "sameLiteral") {
+				f.Tag = append([]TagItem(nil), donor.Tag...)
+				f.TagSep = append([]string(nil), donor.TagSep...)
+			}
+			for _, it := range f.Inject {
+				if strings.Contains(it.V, "*/") {
+					f.Block = false
+				}
+			}
+		}
+	}
+	for _, f := range ann {
+		for _, it := range f.Inject {
+			if strings.Contains(it.V, "*/") {
+				f.Block = false // the value would end a block comment early
+			}
+		}
+	}
 	// duplicate declarations of helper types would not matter to the injector (it only parses), keep them
 	return s
 }
